@@ -132,6 +132,12 @@ def key(t):
     return None
 
 
+from ..values import ListOf  # noqa: E402
+
+
+from ..values import Unsupported  # noqa: E402
+
+
 class PathInfo:
     def __init__(self, p, func, loop_sites=None):
         self.p = p
@@ -149,6 +155,12 @@ class PathInfo:
                 label = getattr(src, "label", None) or getattr(getattr(src, "source", None), "label", None)
                 if label and label.startswith("robot."):
                     self.lens.setdefault(label[len("robot."):], e.args[0])
+        # lists of unknown length consumed some other way (comprehension, filter, map ...): the length this path gave them
+        rob = p.world.get("robot") if isinstance(p.world, dict) else None
+        for v in (rob.fields.values() if rob is not None else ()):
+            label = getattr(v, "label", None)
+            if isinstance(v, ListOf) and label and label.startswith("robot.") and v.uid in p.interp.listlen:
+                self.lens.setdefault(label[len("robot."):], p.interp.listlen[v.uid])
         self.iters = sum(1 for t in self.tokens if t[0] == "iter")
         ends = [t for t in self.tokens if t[0] == "loopend"]
         # an iteration that leaves through `break` at the driver-station test is partial (no callbacks expected)
@@ -189,26 +201,94 @@ def explore(ctx, info, world, func, fault=False, max_while=2):
     return [PathInfo(p, func, sites) for p in paths]
 
 
-def prepare(ctx):
+def learn_shapes(ctx):
+    """What kind of record does the start-up code append to each list the constructor leaves empty?
+    A plain tuple stays an opaque user handle (unpacked by position).  An instance of a repository class
+    (NamedTuple, dataclass, plain class) becomes a template of that class whose fields are the opaque handles, so that
+    its methods are interpreted when a mode function calls them."""
+    from ..values import NTuple, Obj as _Obj
+
+    cached = getattr(ctx, "_list_shapes", None)
+    if cached is not None:
+        return cached
     info, worlds = robot.build(ctx)
+    w = worlds[0][0]
+
+    def run(it, world):
+        r = world["robot"]
+        it.call(it.getattr(r, "_create_components"), [], {})
+        return r
+
+    seen = {}
+    for p in fn.all_paths(ctx, run, hooks=lambda: CreateHooks(info), world=w, max_paths=50000):
+        for e in p.trace:
+            if e.kind == "listof_append" and e.name.startswith("robot."):
+                v = e.args[1]
+                k = e.name[len("robot."):]
+                if isinstance(v, NTuple):
+                    seen.setdefault(k, set()).add(("nt", v.cls, tuple(v.cls.nt_fields)))
+                elif isinstance(v, _Obj) and v.cls.module is not None and not isinstance(v, Ext):
+                    seen.setdefault(k, set()).add(("obj", v.cls, tuple(v.fields)))
+                else:
+                    seen.setdefault(k, set()).add(("opaque",))
+    shapes = {}
+    for k, kinds in seen.items():
+        if len(kinds) != 1:
+            raise Unsupported(f"robot.{k} is filled with records of different kinds: {sorted(map(repr, kinds))}")
+        kind = next(iter(kinds))
+        if kind[0] == "nt":
+            shapes[k] = (lambda cls, fields: (lambda elem: NTuple(cls, [Ext(f"{elem.path}.{f}", "user", role="elem") for f in fields])))(kind[1], kind[2])
+        elif kind[0] == "obj":
+            def mk(cls, fields):
+                def make(elem):
+                    o = _Obj(cls, {f: Ext(f"{elem.path}.{f}", "user", role="elem") for f in fields}, label=elem.path)
+                    o.is_template = True
+                    return o
+                return make
+            shapes[k] = mk(kind[1], kind[2])
+    ctx._list_shapes = shapes
+    return shapes
+
+
+def prepare(ctx):
+    info, worlds = robot.build(ctx, shapes=learn_shapes(ctx))
     out = []
     for w, ch, tr in worlds:
         r = w["robot"]
         r.fields["use_teleop_in_autonomous"] = Sym("cfg:use_teleop_in_autonomous", "bool", uid=0)
         r.fields["control_loop_wait_time"] = Sym("cfg:control_loop_wait_time", "num", uid=0)
-        per = [k for k, v in r.fields.items() if hasattr(v, "items") and isinstance(getattr(v, "items"), list) and v.items and isinstance(v.items[0], tuple)]
+        per = [k for k, v in r.fields.items() if _periodic_callables(v)]
         out.append((w, per))
     return info, out
+
+
+def _periodic_callables(v):
+    """the robot's own bound methods stored in a container field, in iteration order (a list of (method, name)
+    pairs today; any list / dict holding them, as items, keys or values, is recognised)"""
+    from ..values import DictV as _D, ListV as _L
+
+    def user_fn(x):
+        return isinstance(x, Ext) and x.origin == "user" and x.path.startswith("robot.")
+
+    if isinstance(v, _L):
+        entries = v.items
+    elif isinstance(v, _D):
+        entries = list(v.items.items())
+    else:
+        return []
+    out = []
+    for e in entries:
+        parts = e if isinstance(e, tuple) else (e,)
+        out.extend(x for x in parts if user_fn(x))
+    return out
 
 
 def periodic_tokens(world, per_fields):
     r = world["robot"]
     toks = []
     for f in per_fields:
-        for item in r.fields[f].items:
-            fnv = item[0]
-            if isinstance(fnv, Ext) and fnv.origin == "user":
-                toks.append(("robot", fnv.path[len("robot."):]))
+        for fnv in _periodic_callables(r.fields[f]):
+            toks.append(("robot", fnv.path[len("robot."):]))
     return toks
 
 
